@@ -185,7 +185,7 @@ type emitFn func(fam, text string, startAbs, endAbs bool) bool
 // forEachSQL enumerates every text of every family; stops when emit returns false.
 func forEachSQL(thorough bool, bounds map[string]interface{}, emit emitFn) {
 	selOps := []string{"+", "-", "*", "/"}
-	selAtoms := []string{"f", "g", "16777217", "0.123456789012"} // numbers that do not survive float32 / 2-decimal formatting
+	selAtoms := []string{"f", "g", "16777217", "0.30000000000000004"} // numbers that do not survive float32 / 2-decimal / 15-digit formatting
 	selUnary := []string{"sum", "max", ""}                       // "" = parenthesis
 
 	// ---- F1 select-expr: every select expression, alone / aliased+ordered / as having operand ----
@@ -193,7 +193,7 @@ func forEachSQL(thorough bool, bounds map[string]interface{}, emit emitFn) {
 	if thorough {
 		W, D = 6, 4
 	}
-	bounds["select_expr"] = fmt.Sprintf("E := f|g|16777217|0.123456789012 | sum(E)|max(E)|(E) | E(+|-|*|/)E, <=%d nodes, nesting<=%d", W, D)
+	bounds["select_expr"] = fmt.Sprintf("E := f|g|16777217|0.30000000000000004 | sum(E)|max(E)|(E) | E(+|-|*|/)E, <=%d nodes, nesting<=%d", W, D)
 	byW := genExpr(selAtoms, selUnary, selOps, W, D)
 	all := flat(byW, W)
 	for _, e := range all {
@@ -473,6 +473,21 @@ func forEachSQL(thorough bool, bounds map[string]interface{}, emit emitFn) {
 						}
 					}
 				}
+			}
+		}
+	}
+
+	// ---- F9 numbers: number literals whose float64 needs 1..17 significant digits, in every position a number can take ----
+	numTexts := []string{"0", "1", "0.1", "0.5", "0.99", "100", "1.5", "0.000001", "16777217", "0.123456789012", "0.30000000000000004",
+		"0.3333333333333333", "0.6666666666666666", "3.141592653589793", "2.718281828459045", "123456789.12345679", "9007199254740992",
+		"9007199254740993", "18014398509481985", "1.7976931348623157", "0.000000000000000000000000001", "4.9406564584124654", "1e21", "1.5e-7"}
+	bounds["numbers"] = fmt.Sprintf("%d number literals (1..17 significant digits, large integers above 2^53, exponent forms) x {select item, arithmetic operand, function argument, nested call operand, having operand}", len(numTexts))
+	for _, n := range numTexts {
+		for _, t := range []string{"select " + n + " from cpu", "select f*" + n + " as x from cpu", "select quantile(" + n + ") from cpu", "select sum(f+" + n + ")/" + n + " from cpu",
+			"select f from cpu where " + absRange + " group by host having sum(f) > " + n} {
+			abs := strings.Contains(t, absRange)
+			if !emit("numbers", t, abs, abs) {
+				return
 			}
 		}
 	}
